@@ -429,35 +429,35 @@ theorem todo_false_of_isNone (ms : MsgSt) (h : ms.todo.isNone = true) : (bv ms).
   | none => rfl
   | some x => simp [ht] at h
 
-theorem gstep_inv (cfg : Cfg) (s s' : St) (g : Ghost) (e : Ev) (hI : Nq.Lemmas.DI.Inv cfg s) (hG : GInv cfg s g)
-    (hacc : accept cfg s e = some s') : GInv cfg s' (gstep s g e) := by
+theorem gstep_inv_core (cfg : Cfg) (s s' : St) (g : Ghost) (e : Ev) (hI : Nq.Lemmas.DI.Inv cfg s) (hG : GInv cfg s g)
+    (hacc : acceptCore cfg s e = some s') : GInv cfg s' (gstep s g e) := by
   cases e with
   | tick t =>
-    simp only [accept] at hacc
+    simp only [acceptCore] at hacc
     split at hacc
     · cases hacc; exact ginv_same cfg s _ g (fun _ => rfl) hG
     · cases hacc
   | restart =>
-    simp only [accept] at hacc
+    simp only [acceptCore] at hacc
     cases hacc; exact ginv_same cfg s _ g (fun _ => rfl) hG
   | utimes m c t =>
-    simp only [accept] at hacc
+    simp only [acceptCore] at hacc
     split at hacc
     · cases hacc; exact hG
     · cases hacc
   | cleanResp b =>
-    simp only [accept] at hacc
+    simp only [acceptCore] at hacc
     split at hacc
     · cases hacc; exact ginv_same cfg s _ g (fun _ => rfl) hG
     · cases hacc
   | rbytes c bs =>
-    simp only [accept] at hacc
+    simp only [acceptCore] at hacc
     split at hacc
     · cases hacc
     · cases hacc
       exact ginv_same cfg s _ g (fun k => by rw [bv_feedReports]; rfl) hG
   | cmd c delnum m pos recip =>
-    simp only [accept] at hacc
+    simp only [acceptCore] at hacc
     split at hacc
     · cases hacc
     · split at hacc
@@ -468,13 +468,13 @@ theorem gstep_inv (cfg : Cfg) (s s' : St) (g : Ghost) (e : Ev) (hI : Nq.Lemmas.D
           · cases hacc; exact ginv_same cfg s _ g (fun _ => rfl) hG
           · cases hacc
   | creatInfo m =>
-    simp only [accept] at hacc
+    simp only [acceptCore] at hacc
     split at hacc
     · rename_i hg; cases hacc
       exact ginv_todo cfg s _ g m _ (msg_upd_tab s _ m _ rfl) hG hg.2.1 rfl rfl rfl rfl rfl rfl
     · cases hacc
   | writeInfo m bs =>
-    simp only [accept] at hacc
+    simp only [acceptCore] at hacc
     split at hacc
     · split at hacc
       · rename_i hg; cases hacc
@@ -482,19 +482,19 @@ theorem gstep_inv (cfg : Cfg) (s s' : St) (g : Ghost) (e : Ev) (hI : Nq.Lemmas.D
       · cases hacc
     · cases hacc
   | fsyncInfo m =>
-    simp only [accept] at hacc
+    simp only [acceptCore] at hacc
     split at hacc
     · rename_i hg; cases hacc
       exact ginv_todo cfg s _ g m _ (msg_upd_tab s _ m _ rfl) hG hg.2.1 rfl rfl rfl rfl rfl rfl
     · cases hacc
   | creatChan m c =>
-    simp only [accept] at hacc
+    simp only [acceptCore] at hacc
     split at hacc
     · rename_i hg; cases hacc
       exact ginv_frame cfg s _ g m _ (msg_upd_tab s _ m _ rfl) hG (by rw [bv_setChanSynced, bv_setChan])
     · cases hacc
   | writeChan m c bs =>
-    simp only [accept] at hacc
+    simp only [acceptCore] at hacc
     split at hacc
     · split at hacc
       · cases hacc
@@ -502,19 +502,19 @@ theorem gstep_inv (cfg : Cfg) (s s' : St) (g : Ghost) (e : Ev) (hI : Nq.Lemmas.D
       · cases hacc
     · cases hacc
   | fsyncChan m c =>
-    simp only [accept] at hacc
+    simp only [acceptCore] at hacc
     split at hacc
     · cases hacc
       exact ginv_frame cfg s _ g m _ (msg_upd_tab s _ m _ rfl) hG (by rw [bv_setChanSynced])
     · cases hacc
   | crashTodoFiles m =>
-    simp only [accept] at hacc
+    simp only [acceptCore] at hacc
     split at hacc
     · rename_i hg; cases hacc
-      exact ginv_todo cfg s _ g m _ (msg_upd_tab s _ m _ rfl) hG hg.2.2 rfl rfl rfl rfl rfl rfl
+      exact ginv_todo cfg s _ g m _ (msg_upd_tab s _ m _ rfl) hG hg.2.2.2 rfl rfl rfl rfl rfl rfl
     · cases hacc
   | unlinkChan m c =>
-    simp only [accept] at hacc
+    simp only [acceptCore] at hacc
     split at hacc
     · cases hacc
     · split at hacc
@@ -527,7 +527,7 @@ theorem gstep_inv (cfg : Cfg) (s s' : St) (g : Ghost) (e : Ev) (hI : Nq.Lemmas.D
             exact ginv_frame cfg s _ g m _ (msg_upd_tab s _ m _ rfl) hG (by rw [bv_setChan])
           · cases hacc
   | unlinkInfo m =>
-    simp only [accept] at hacc
+    simp only [acceptCore] at hacc
     split at hacc
     · cases hacc
     · split at hacc
@@ -539,7 +539,7 @@ theorem gstep_inv (cfg : Cfg) (s s' : St) (g : Ghost) (e : Ev) (hI : Nq.Lemmas.D
             (gminv_info_none cfg _ _ (hG m))
         · cases hacc
   | markD m c pos =>
-    simp only [accept] at hacc
+    simp only [acceptCore] at hacc
     split at hacc
     · cases hacc
     · split at hacc
@@ -551,7 +551,7 @@ theorem gstep_inv (cfg : Cfg) (s s' : St) (g : Ghost) (e : Ev) (hI : Nq.Lemmas.D
             exact ginv_frame cfg s _ g m _ (msg_upd_tab s _ m _ rfl) hG (by rw [bv_setChan])
           · cases hacc
   | crashMarks m c marks =>
-    simp only [accept] at hacc
+    simp only [acceptCore] at hacc
     split at hacc
     · cases hacc
     · split at hacc
@@ -559,7 +559,7 @@ theorem gstep_inv (cfg : Cfg) (s s' : St) (g : Ghost) (e : Ev) (hI : Nq.Lemmas.D
         exact ginv_frame cfg s _ g m _ (msg_upd_tab s _ m _ rfl) hG (by rw [bv_setChan])
       · cases hacc
   | cUnlinkIntd m =>
-    simp only [accept] at hacc
+    simp only [acceptCore] at hacc
     split at hacc
     · split at hacc
       · cases hacc; exact ginv_frame cfg s _ g m _ (msg_upd_tab s _ m _ rfl) hG rfl
@@ -569,14 +569,14 @@ theorem gstep_inv (cfg : Cfg) (s s' : St) (g : Ghost) (e : Ev) (hI : Nq.Lemmas.D
       · cases hacc
     · cases hacc
   | cUnlinkMess m =>
-    simp only [accept] at hacc
+    simp only [acceptCore] at hacc
     split at hacc
     · split at hacc
       · cases hacc; exact ginv_frame cfg s _ g m _ (msg_upd_tab s _ m _ rfl) hG rfl
       · cases hacc
     · cases hacc
   | cleanReq bs =>
-    simp only [accept] at hacc
+    simp only [acceptCore] at hacc
     split at hacc
     · cases hacc
     · split at hacc
@@ -593,7 +593,7 @@ theorem gstep_inv (cfg : Cfg) (s s' : St) (g : Ghost) (e : Ev) (hI : Nq.Lemmas.D
             · cases hacc
           · cases hacc
   | cUnlinkTodo m =>
-    simp only [accept] at hacc
+    simp only [acceptCore] at hacc
     split at hacc
     · rename_i k hcl
       split at hacc
@@ -605,14 +605,14 @@ theorem gstep_inv (cfg : Cfg) (s s' : St) (g : Ghost) (e : Ev) (hI : Nq.Lemmas.D
       · cases hacc
     · cases hacc
   | newmsg m sender rcpts =>
-    simp only [accept] at hacc
+    simp only [acceptCore] at hacc
     split at hacc
     · cases hacc
       exact ginv_upd cfg s _ g _ m _ {} (msg_upd_tab s _ m _ rfl) (fun _ => rfl) hG
         (gminv_empty cfg _ rfl rfl rfl rfl rfl)
     · cases hacc
   | appendBounce m bs =>
-    simp only [accept] at hacc
+    simp only [acceptCore] at hacc
     split at hacc
     · cases hacc
     · split at hacc
@@ -624,7 +624,7 @@ theorem gstep_inv (cfg : Cfg) (s s' : St) (g : Ghost) (e : Ev) (hI : Nq.Lemmas.D
             (gminv_append cfg _ _ (n.c, n.idx) bs (hG m) (todo_false_of_isNone _ hg.1))
         · cases hacc
   | crashBounce m content =>
-    simp only [accept] at hacc
+    simp only [acceptCore] at hacc
     split at hacc
     · rename_i hg; cases hacc
       have ht : (bv (s.msg m)).todo = false := by
@@ -634,7 +634,7 @@ theorem gstep_inv (cfg : Cfg) (s s' : St) (g : Ghost) (e : Ev) (hI : Nq.Lemmas.D
           have hb := ((hG m).t0 htd).1
           have hb' : (s.msg m).bounce = none := hb
           have htd' : (s.msg m).todo.isSome = true := htd
-          rcases hg.2.2 with h1 | h1
+          rcases hg.2.2.2 with h1 | h1
           · rw [hb'] at h1; simp at h1
           · have := h1.1
             cases hx : (s.msg m).todo with
@@ -644,7 +644,7 @@ theorem gstep_inv (cfg : Cfg) (s s' : St) (g : Ghost) (e : Ev) (hI : Nq.Lemmas.D
         (gminv_crash cfg _ _ content (hG m) ht)
     · cases hacc
   | bounceInject m ok env body =>
-    simp only [accept] at hacc
+    simp only [acceptCore] at hacc
     split at hacc
     · cases hacc
     · split at hacc
@@ -671,7 +671,7 @@ theorem gstep_inv (cfg : Cfg) (s s' : St) (g : Ghost) (e : Ev) (hI : Nq.Lemmas.D
         · cases hacc
       · cases hacc
   | unlinkBounce m =>
-    simp only [accept] at hacc
+    simp only [acceptCore] at hacc
     split at hacc
     · cases hacc
     · split at hacc
@@ -698,6 +698,19 @@ theorem gstep_inv (cfg : Cfg) (s s' : St) (g : Ghost) (e : Ev) (hI : Nq.Lemmas.D
             · cases hacc
         · cases hacc
       · cases hacc
+
+/-- the history step reads the files only: it does not see the crash mode -/
+theorem gstep_before (s : St) (g : Ghost) (e : Ev) : gstep (s.before e) g e = gstep s g e := by
+  unfold St.before
+  split
+  · rfl
+  · cases e <;> rfl
+
+theorem gstep_inv (cfg : Cfg) (s s' : St) (g : Ghost) (e : Ev) (hI : Nq.Lemmas.DI.Inv cfg s) (hG : GInv cfg s g)
+    (hacc : accept cfg s e = some s') : GInv cfg s' (gstep s g e) := by
+  rw [← gstep_before]
+  exact gstep_inv_core cfg (s.before e) s' g e (Nq.Lemmas.DI.inv_before cfg s e hI)
+    (ginv_same cfg s _ g (fun k => by rw [St.before_msg]) hG) hacc
 
 /-! ### reachability -/
 
@@ -802,7 +815,10 @@ theorem last_trace (cfg : Cfg) (m : Nat) (x : Sent) : ∀ (evs : List Ev) (s0 : 
 /-- an accepted injection found `bounce/<m>` -/
 theorem inject_bounce_some (cfg : Cfg) (s : St) (m : Nat) (ok : Bool) (env body : Bytes)
     (h : (accept cfg s (.bounceInject m ok env body)).isSome = true) : ∃ f, (s.msg m).bounce = some f := by
-  simp only [accept] at h
+  refine (?_ : ∀ t : St, (acceptCore cfg t (.bounceInject m ok env body)).isSome = true → ∃ f, (t.msg m).bounce = some f) s.calm h
+  clear h s
+  intro s h
+  simp only [acceptCore] at h
   split at h
   · cases h
   · split at h
@@ -885,7 +901,11 @@ theorem acc_inject (cfg : Cfg) (s : St) (m : Nat) (sender bf env body : Bytes) (
     (hne : sender ≠ Bounce.DBSENDER) (hg : ok = true → (isInfix bf body = true ∧ env = bounceEnvelope cfg sender)) :
     ∃ s', accept cfg s (.bounceInject m ok env body) = some s' ∧ InjReady s' m sender bf ∧ (s'.msg m).lastInject = ok := by
   have hne' : ¬ sender = [35, 64, 91, 93] := hne
-  simp only [accept, h.clean, h.info, h.bounce, h.todo, h.loc, h.rem]
+  refine (?_ : ∀ t : St, InjReady t m sender bf → ∃ s', acceptCore cfg t (.bounceInject m ok env body) = some s' ∧
+      InjReady s' m sender bf ∧ (s'.msg m).lastInject = ok) s.calm ⟨h.clean, h.todo, h.loc, h.rem, h.info, h.bounce⟩
+  clear h s
+  intro s h
+  simp only [acceptCore, h.clean, h.info, h.bounce, h.todo, h.loc, h.rem]
   have hsd : ((70 :: sender ++ [0] : Bytes).drop 1).dropLast = sender := by simp
   simp only [hsd]
   rw [if_neg (by simp)]
@@ -896,7 +916,12 @@ theorem acc_unlink_ok (cfg : Cfg) (s : St) (m : Nat) (sender bf : Bytes) (h : In
     (hne : sender ≠ Bounce.DBSENDER) (hl : (s.msg m).lastInject = true) :
     ∃ s', accept cfg s (.unlinkBounce m) = some s' ∧ (s'.msg m).bounce = none := by
   have hne' : ¬ sender = [35, 64, 91, 93] := hne
-  simp only [accept, h.clean, h.info, h.bounce, h.todo, h.loc, h.rem]
+  refine (?_ : ∀ t : St, InjReady t m sender bf → (t.msg m).lastInject = true →
+      ∃ s', acceptCore cfg t (.unlinkBounce m) = some s' ∧ (s'.msg m).bounce = none)
+    s.calm ⟨h.clean, h.todo, h.loc, h.rem, h.info, h.bounce⟩ hl
+  clear h hl s
+  intro s h hl
+  simp only [acceptCore, h.clean, h.info, h.bounce, h.todo, h.loc, h.rem]
   have hsd : ((70 :: sender ++ [0] : Bytes).drop 1).dropLast = sender := by simp
   simp only [hsd]
   rw [if_neg (by simp), if_pos ⟨rfl, rfl, rfl⟩, if_neg hne', if_pos hl]
@@ -904,7 +929,12 @@ theorem acc_unlink_ok (cfg : Cfg) (s : St) (m : Nat) (sender bf : Bytes) (h : In
 
 theorem acc_unlink_discard (cfg : Cfg) (s : St) (m : Nat) (bf : Bytes) (h : InjReady s m Bounce.DBSENDER bf) :
     ∃ s', accept cfg s (.unlinkBounce m) = some s' ∧ (s'.msg m).bounce = none := by
-  simp only [accept, h.clean, h.info, h.bounce, h.todo, h.loc, h.rem]
+  refine (?_ : ∀ t : St, InjReady t m Bounce.DBSENDER bf →
+      ∃ s', acceptCore cfg t (.unlinkBounce m) = some s' ∧ (s'.msg m).bounce = none)
+    s.calm ⟨h.clean, h.todo, h.loc, h.rem, h.info, h.bounce⟩
+  clear h s
+  intro s h
+  simp only [acceptCore, h.clean, h.info, h.bounce, h.todo, h.loc, h.rem]
   have hsd : ((70 :: Bounce.DBSENDER ++ [0] : Bytes).drop 1).dropLast = Bounce.DBSENDER := by simp
   simp only [hsd]
   rw [if_pos (show Bounce.DBSENDER = [35, 64, 91, 93] from rfl)]
